@@ -109,19 +109,24 @@ Qed.
 (* ---------------------------------------------------------------- what is sent *)
 (* the response body, however it is chunked / read *)
 Definition body_of (a : app_iter) : str :=
-  match a with AList cs => concat cs | AFile d _ => d end.
+  match a with AList cs => concat cs | AFile d _ => d | ANoRange cs => concat cs end.
 Definition app_ok (a : app_iter) : Prop :=
-  match a with AList _ => True | AFile _ bs => (0 < bs)%nat end.
+  match a with AList _ => True | AFile _ bs => (0 < bs)%nat | ANoRange _ => True end.
+(* the app_iter serves ranges (plain iterables via AppIterRange, FileIter by itself) *)
+Definition serves_ranges (a : app_iter) : Prop :=
+  match a with ANoRange _ => False | _ => True end.
 
 Lemma app_chunks_body : forall a, app_ok a -> concat (app_chunks a) = body_of a.
-Proof. intros [cs|d bs] H; cbn [app_chunks body_of]; [reflexivity | now apply fileiter_full]. Qed.
+Proof. intros [cs|d bs|cs] H; cbn [app_chunks body_of]; [reflexivity | now apply fileiter_full | reflexivity]. Qed.
 
-Lemma app_range_slice : forall a start stop, app_ok a -> (start < stop)%nat ->
-  concat (app_range_chunks a start stop) = slice (body_of a) start stop.
+Lemma app_range_slice : forall a start stop, app_ok a -> serves_ranges a -> (start < stop)%nat ->
+  exists chunks, app_range_chunks a start stop = Some chunks /\
+                 concat chunks = slice (body_of a) start stop.
 Proof.
-  intros [cs|d bs] start stop H Hss; cbn [app_range_chunks body_of].
-  - now apply air_slice_exact.
-  - now apply fileiter_slice_exact.
+  intros [cs|d bs|cs] start stop H Hs Hss; cbn [app_range_chunks body_of].
+  - eexists; split; [reflexivity|]. now apply air_slice_exact.
+  - eexists; split; [reflexivity|]. now apply fileiter_slice_exact.
+  - now elim Hs.
 Qed.
 
 Definition sent_body (i : cin) (payload : str) : str := if is_head (q_method i) then [] else payload.
@@ -141,7 +146,7 @@ Qed.
 (* 206: status, Content-Length = last - first + 1, Content-Range = bytes first-last/L, the other
    headers kept, payload = body[first:last+1] byte for byte, for every chunking and block size;
    HEAD gets the same status and headers and no payload *)
-Theorem resp_206 : forall i s e L, decide i = D206 s e L -> app_ok (r_app i) ->
+Theorem resp_206 : forall i s e L, decide i = D206 s e L -> app_ok (r_app i) -> serves_ranges (r_app i) ->
   exists chunks,
     cond_resp_app i =
       Some (S_206,
@@ -151,12 +156,18 @@ Theorem resp_206 : forall i s e L, decide i = D206 s e L -> app_ok (r_app i) ->
             chunks)
     /\ concat chunks = sent_body i (slice (body_of (r_app i)) (Z.to_nat s) (Z.to_nat e)).
 Proof.
-  intros i s e L H Hok. destruct (decide_206_bounds _ _ _ _ H) as (_ & H0 & Hse & _).
+  intros i s e L H Hok Hs. destruct (decide_206_bounds _ _ _ _ H) as (_ & H0 & Hse & _).
   unfold cond_resp_app, sent_body. rewrite H. cbn [content_range_str].
+  destruct (app_range_slice (r_app i) (Z.to_nat s) (Z.to_nat e) Hok Hs ltac:(lia)) as (chunks & -> & Hc).
   destruct (is_head (q_method i)).
   - eexists; split; reflexivity.
-  - eexists; split; [reflexivity|]. apply app_range_slice; [exact Hok | lia].
+  - eexists; split; [reflexivity | exact Hc].
 Qed.
+
+(* an app_iter whose own app_iter_range declines (returns None) gets the complete response *)
+Theorem resp_206_declined : forall i s e L cs, decide i = D206 s e L -> r_app i = ANoRange cs ->
+  cond_resp_app i = Some (r_status i, r_headers i, if is_head (q_method i) then [] else cs).
+Proof. intros i s e L cs H Ha. unfold cond_resp_app. rewrite H, Ha. reflexivity. Qed.
 
 (* ... and when Content-Length is truthful, the payload has exactly the announced size *)
 Lemma slice_length : forall (b : str) s e, (s <= e)%nat -> (e <= length b)%nat -> length (slice b s e) = (e - s)%nat.
@@ -171,7 +182,7 @@ Proof.
 Qed.
 
 (* 416: Content-Range: bytes */L, the other headers (minus Content-Length / Content-Type) kept *)
-Theorem resp_416 : forall i rg L, decide i = D416 rg L ->
+Theorem resp_416 : forall i rg L, decide i = D416 rg L -> 0 <= L ->
   exists cl body,
     cond_resp_app i =
       Some (S_416,
@@ -180,7 +191,8 @@ Theorem resp_416 : forall i rg L, decide i = D416 rg L ->
             body)
     /\ (is_head (q_method i) = true -> body = []).
 Proof.
-  intros i rg L H. unfold cond_resp_app. rewrite H. cbn [content_range_str].
+  intros i rg L H HL. unfold cond_resp_app. rewrite H. unfold mk_content_range. cbn [is_cr_valid].
+  destruct (Z.leb_spec 0 L); [|lia]. cbn [content_range_str].
   destruct (is_head (q_method i)); do 2 eexists; (split; [reflexivity|]); intros Hh.
   - reflexivity.
   - discriminate Hh.
